@@ -673,6 +673,7 @@ KV = "nostr_relay/storage/kv.py"
 VAL = "nostr_relay/validators.py"
 
 MUTANTS = [
+    M("c04-other-deserializer", "nostr_relay/storage/db.py", "json_deserializer=json_loads", "json_deserializer=__import__(\"json\").loads", "C04.encoder"),
     M("c04-created-at-isinstance", VAL, "type(event.created_at) is int", "isinstance(event.created_at, int)", "C04.canonical"),
     M("c04-subid-truncated", WEB, "                    sub_id = str(message[1])\n                    await storage.subscribe(", "                    sub_id = str(message[1])[:64]\n                    await storage.subscribe(", "C04.subid"),
     M("c04-eose-fstring", WEB, "message = json_dumps([\"EOSE\", sub_id])", "message = f'[\"EOSE\",\"{sub_id}\"]'", "C04.frames", canary=True),
